@@ -104,7 +104,7 @@ var csrShapes = []string{"plain", "cn", "decoy-sans", "ca-true", "keyusage-certs
 	"trailing-junk", "corrupt-sig", "corrupt-tbs", "truncated-pem", "truncated-der", "garbage", "empty", "cert-as-csr", "bad-base64", "two-blocks-bad-first"}
 var ttlShapes = []string{"min-int64", "minus-one", "zero", "one", "max-minus-1", "max", "max-plus-1", "twice-max", "beyond-signer", "max-int64",
 	"just-below-overflow", "overflow-negative", "overflow-tiny", "overflow-near-max", "overflow-above-max", "default-range", "random"}
-var impShapes = []string{"none", "same-node", "same-node-2", "other-node", "other-cluster", "pending-pod", "nonexistent", "caller-self", "admin", "not-spiffe",
+var impShapes = []string{"none", "caller-self-foreign-td", "same-node", "same-node-2", "other-node", "other-cluster", "pending-pod", "nonexistent", "caller-self", "admin", "not-spiffe",
 	"too-short", "too-long", "swapped-segments", "leading-space", "trailing-space", "comma-two-spiffe", "comma-dns", "foreign-td", "empty-td", "uppercase",
 	"non-string-number", "non-string-list", "non-string-struct", "null", "empty-string"}
 var impCallerShapes = []string{"zt-n1", "zt-n2", "node-agent-n1", "app-untrusted", "zt-wrong-uid", "zt-no-extra", "zt-pending", "zt-c2", "zt-n1-no-header",
@@ -960,6 +960,16 @@ func (g *gen) impFor(shape string, caller *podRow) (val *structpb.Value, s strin
 		return str(spiffeID(td, same.NS, same.SA) + ",istiod.istio-system.svc")
 	case "foreign-td":
 		return str(spiffeID("foreign.example.org", same.NS, same.SA))
+	case "caller-self-foreign-td":
+		// the caller's OWN namespace and service account under another trust domain. Only asked by callers that are
+		// not trusted node accounts (for those the foreign-td shape already covers the missing trust-domain comparison).
+		if caller != nil && !trustedAccounts[[2]string{caller.NS, caller.SA}] {
+			return str(spiffeID("partner.example.org", caller.NS, caller.SA))
+		}
+		if caller != nil {
+			return str(spiffeID(td, caller.NS, caller.SA))
+		}
+		return str(spiffeID(td, "istio-system", "ztunnel"))
 	case "empty-td":
 		return str(spiffeID("", same.NS, same.SA))
 	case "uppercase":
